@@ -62,6 +62,34 @@ def keyed_matnet(policy):
     return policy
 
 
+def depot_keen(policy):
+    with torch.no_grad():
+        for p in policy.encoder.init_embedding.init_embed_depot.parameters():
+            p.mul_(20.0)
+    return policy
+
+
+def pick_early_returns(policy, env, pool, n):
+    """indices of n instances of the pool: up to n/2 whose solo greedy tour returns to the depot while another node is
+    still feasible (shortest first), the rest the longest tours"""
+    info = []
+    for i in range(pool.batch_size[0]):
+        td = env.reset(pool[i:i + 1].clone())
+        with torch.no_grad():
+            acts = policy(td.clone(), env, decode_type="greedy")["actions"][0].tolist()
+        early = False
+        for a in acts:
+            if a == 0:
+                early = int(td["action_mask"][0].sum()) > 1
+                break
+            td.set("action", torch.tensor([a]))
+            td = env.step(td)["next"]
+        info.append((early, len(acts), i))
+    early = sorted([x for x in info if x[0]], key=lambda x: x[1])[: n // 2]
+    rest = sorted([x for x in info if x not in early], key=lambda x: -x[1])[: n - len(early)]
+    return [x[2] for x in early + rest], len(early)
+
+
 def _e(name, env, mk, **kw):
     d = {"name": name, "env": env, "mk": mk, "gp": None, "gpx": {}, "kind": "std", "prep": None, "quick": False,
          "best_of": None,          # None | "multistart" | "multisample"
@@ -83,6 +111,11 @@ def policy_matrix(tier):
     # OP with a generous budget: tours end at the depot while other nodes are still affordable, so a finished row that is
     # stepped on next to slower batch-mates has a real choice
     out.append(_e("AM", "op", lambda: AttentionModelPolicy(env_name="op", **kw), gpx={"max_length": 4.0}, quick=True, best_of="multistart"))
+    # ... and weights under which the depot is an attractive choice (random weights give the depot the lowest logit at every
+    # step, so the tour only ends when nothing else is affordable): the depot's initial embedding is scaled, and the instances
+    # are picked from a pool so that rows that return EARLY (other nodes still affordable) sit next to rows that go on
+    out.append(_e("AM(depot-keen)", "op", lambda: AttentionModelPolicy(env_name="op", **kw), gpx={"max_length": 4.0}, quick=True,
+                  prep=depot_keen, pool=32))
     try:
         from rl4co.models.zoo import HeterogeneousAttentionModelPolicy
         out.append(_e("HAM", "pdp", lambda: HeterogeneousAttentionModelPolicy(env_name="pdp", **kw), quick=True))
@@ -264,7 +297,7 @@ def run(tier, seed):
     logging.disable(logging.WARNING)
     rnd = random.Random(seed)
     torch.manual_seed(seed)
-    recs, skipped = [], []
+    recs, skipped, early_rows = [], [], {}
     n_inst = 4 if tier == "quick" else 12
     for entry in policy_matrix(tier):
         pname, ename, gpx, kind = entry["name"], entry["env"], entry["gpx"], entry["kind"]
@@ -279,6 +312,11 @@ def run(tier, seed):
             if entry["prep"] is not None:
                 policy = entry["prep"](policy)
             tdg = env.generator(batch_size=[n_inst])
+            if entry.get("pool"):
+                pool = env.generator(batch_size=[entry["pool"]])
+                idx, n_early = pick_early_returns(policy, env, pool, n_inst)
+                tdg = pool[torch.tensor(idx)].clone()
+                early_rows["%s/%s" % (pname, ename)] = n_early
             if entry["optional"]:
                 decode(policy, env, env.reset(tdg[0:2].clone()), "greedy", kind)
         except Exception as e:
@@ -352,7 +390,7 @@ def run(tier, seed):
                    "copies / unrelated instances / sizes 2..32; non-trivial = every record (>= 10 nodes or 5 jobs x 3 machines, >= 9 decoding steps)",
            "states": st, "transitions": st, "traces_validated_against_impl": len(recs),
            "samples": [{k: recs[0][k] for k in ("policy", "env", "solo")}, {"row": recs[0]["rows"][0]}] if recs else [{}],
-           "matrix": sorted({r["policy"] + "/" + r["env"] for r in recs}), "skipped": skipped, "records_with_a_tie_step": ties,
+           "matrix": sorted({r["policy"] + "/" + r["env"] for r in recs}), "skipped": skipped, "rows_returning_early(OP, depot-keen)": early_rows, "records_with_a_tie_step": ties,
            "known_finding_witnesses": n_known,
            "explanation": "trace validation of an opaque function against the per-row refinement specification InferTrace.tla"}
     verdict.write_evidence("C14", tier, seed, "exploration", cov,
